@@ -2095,10 +2095,13 @@ impl DB {
                 match FileNameHandler::get_file_type_from_name(file.as_path()) {
                     Ok(file_type) => match file_type {
                         ParsedFileType::ManifestFile(manifest_file_num) => {
-                            // Keep current manifest as well as any newer manifests (which can
-                            // happen if there is an undiscovered race condition)
+                            // Keep only the current manifest. The database lock makes this
+                            // instance the only writer of manifests, so a manifest with a newer
+                            // number can only be the leftover of an open that crashed before it
+                            // switched `CURRENT`. It would never be removed otherwise because
+                            // reusing an existing manifest keeps the current number low.
                             if manifest_file_num
-                                < db_fields_guard.version_set.get_manifest_file_number()
+                                != db_fields_guard.version_set.get_manifest_file_number()
                             {
                                 log::debug!(
                                     "Marking manifest file {:?} for deletion.",
